@@ -130,7 +130,7 @@ def judge(ck, traces, stats):
             else:
                 what = "recorded event has no action in MerkleProof_Trace (%s): %s" % (ctx, json.dumps(cellcommon.slim(e, 600)))
             found.append((len(r["cells"]) * 1000 + rj["accepted"], key, what, {"kind": "vector", "vector": vector_of(seg, rj["accepted"])},
-                          bool(r.get("preread")) and cls in ("plain", "partial", "")))
+                          bool(r.get("preread")) and cls in ("plain", "partial", "merkle", "beneath-merkle", "")))
     # what fails ONLY on provers whose cells had been read before NewMerkleProver (and not for a reason named by another input
     # class) is named by that input class; the failing clause is in the text
     plain_keys = {f[1] for f in found if not f[4]}
